@@ -73,8 +73,9 @@ Definition topup (kpsize size : Z) (k : kp) (o : oracle) : kp * tu_res * oracle 
   else (mkKp (k_next k) new_rend maxc' (k_pnext k) (k_prend k), TU_throw, o3).
 
 Inductive gn_res :=
-| GN_addr (i : Z) (w : bool)   (* the address of index i is returned; w = whether the descriptor write that persists next_index succeeded *)
+| GN_addr (i : Z) (m : bool)   (* the address of index i is returned; m = its script is in m_map_script_pub_keys (i <= m_max_cached_index) *)
 | GN_out                       (* "Error: Keypool ran out, please call keypoolrefill first" *)
+| GN_werr                      (* "Error: Failed to write the descriptor's next index to the wallet database" *)
 | GN_throw | GN_assert | GN_ub.
 
 Definition gn_of_tu (r : tu_res) : option gn_res :=
@@ -95,10 +96,16 @@ Definition gn_of_tu (r : tu_res) : option gn_res :=
                                                                    // succeeds for every index: parent xpub cached
        ...
        m_wallet_descriptor.next_index++;
-       WalletBatch(m_storage.GetDatabase()).WriteDescriptor(GetID(), m_wallet_descriptor);     // RESULT NOT CHECKED
+       if (!WalletBatch(m_storage.GetDatabase()).WriteDescriptor(GetID(), m_wallet_descriptor)) {
+           // Do not hand out an address whose index was not persisted: after a restart it would be handed out again
+           m_wallet_descriptor.next_index--;
+           return util::Error{Untranslated("Error: Failed to write the descriptor's next index to the wallet database")};
+       }
        return dest;
-   } *)
-Definition get_new (kpsize : Z) (k : kp) (o : oracle) : kp * gn_res * oracle :=
+   }
+   `checked` = true is this code.  `checked` = false is the code before the fix (the write's result ignored), kept so
+   that the theorem showing why the check is needed stays stated about a transcription. *)
+Definition get_new_gen (checked : bool) (kpsize : Z) (k : kp) (o : oracle) : kp * gn_res * oracle :=
   let '(k1, r1, o1) := topup kpsize 0 k o in
   match gn_of_tu r1 with
   | Some e => (k1, e, o1)
@@ -120,10 +127,12 @@ Definition get_new (kpsize : Z) (k : kp) (o : oracle) : kp * gn_res * oracle :=
       if INT32_MAX <=? k_next k2 then (k2, GN_ub, o2) else
       let (w, o3) := pop o2 in
       let n' := k_next k2 + 1 in
-      (mkKp n' (k_rend k2) (k_maxc k2) (if w then n' else k_pnext k2) (if w then k_rend k2 else k_prend k2),
-       GN_addr (k_next k2) w, o3)
+      if w then (mkKp n' (k_rend k2) (k_maxc k2) n' (k_rend k2), GN_addr (k_next k2) (k_next k2 <=? k_maxc k2), o3)
+      else if checked then (k2, GN_werr, o3)
+      else (mkKp n' (k_rend k2) (k_maxc k2) (k_pnext k2) (k_prend k2), GN_addr (k_next k2) (k_next k2 <=? k_maxc k2), o3)
     end
   end.
+Definition get_new := get_new_gen true.
 
 (* void DescriptorScriptPubKeyMan::ReturnDestination(int64_t index, bool internal, const CTxDestination& addr)
    {
@@ -193,19 +202,20 @@ Inductive op :=
 | OpReload | OpCrash.
 
 Inductive out :=
-| OAddr (s : nat) (i : Z) (w : bool) (n : nat)    (* address of (s, i) handed out; n = database calls made *)
-| ORes (s : nat) (i : Z) (w : bool) (n : nat)
+| OAddr (s : nat) (i : Z) (m : bool) (n : nat)    (* address of (s, i) handed out; m = the wallet watches it; n = database calls made *)
+| ORes (s : nat) (i : Z) (m : bool) (n : nat)
 | OKept (s : nat) (i : Z)
 | ORet (n : nat) | ONoRes | ODupRes
 | OTop (b : bool) (n : nat)
 | OUsed (c : Z) (n : nat)
 | OLoad
-| OErrOut (n : nat) | OExc (n : nat) | OAssert | OUb.
+| OErrOut (n : nat) | OErrWrite (n : nat) | OExc (n : nat) | OAssert | OUb.
 
 Definition gn_out (mk : nat -> Z -> bool -> nat -> out) (s : nat) (r : gn_res) (n : nat) : out :=
   match r with
   | GN_addr i w => mk s i w n
   | GN_out => OErrOut n
+  | GN_werr => OErrWrite n
   | GN_throw => OExc n
   | GN_assert => OAssert
   | GN_ub => OUb
@@ -285,14 +295,6 @@ Definition handed_of (x : out) : list (nat * Z) :=
   | _ => []
   end.
 Definition handed (xs : list out) : list (nat * Z) := flat_map handed_of xs.
-
-(* every address-issuing call's descriptor write succeeded *)
-Definition issue_write_ok (x : out) : bool :=
-  match x with
-  | OAddr _ _ w _ => w
-  | ORes _ _ w _ => w
-  | _ => true
-  end.
 
 (* executable predicate of the property on a list of handed-out (slot, index) pairs: no repeat *)
 Definition pair_eqb (a b : nat * Z) : bool := Nat.eqb (fst a) (fst b) && (snd a =? snd b).
